@@ -2,6 +2,7 @@
 package main
 
 import (
+	"strconv"
 	"bytes"
 	"encoding/json"
 	"flag"
@@ -61,6 +62,27 @@ var strPaths = [][]string{
 	{"x-release-notes"}, {"definitions", "Zlast", "description"},
 }
 
+// numeric positions of the base document, and the numbers that visit them: every value is a float64 (what both input
+// renderings denote after loading), chosen around the boundaries of the integer types and of the notations
+var numPaths = [][]string{
+	{"paths", "/things", "get", "parameters", "2", "maximum"}, {"paths", "/things", "get", "parameters", "2", "minimum"},
+	{"paths", "/things", "get", "parameters", "2", "default"}, {"paths", "/things", "get", "parameters", "2", "multipleOf"},
+	{"paths", "/things", "get", "parameters", "3", "default"}, {"paths", "/things", "get", "parameters", "3", "minimum"}, {"paths", "/things", "get", "parameters", "3", "maximum"},
+	{"definitions", "Thing", "properties", "count", "example"}, {"definitions", "Thing", "properties", "count", "maximum"},
+	{"definitions", "Thing", "properties", "count", "minimum"}, {"definitions", "Thing", "properties", "count", "default"},
+	{"definitions", "Thing", "properties", "ratio", "example"}, {"definitions", "Thing", "properties", "ratio", "multipleOf"},
+	{"definitions", "Thing", "properties", "tiny", "example"}, {"definitions", "Thing", "properties", "tiny", "maximum"},
+	{"x-rate"},
+}
+
+var numbers = []float64{
+	0, 1, -1, 0.1, -2.5e-7, 0.5, 100, 1e6, 123456789.125,
+	2147483647, 2147483648, -2147483649, 4294967295, 4294967296,
+	9007199254740991, 9007199254740992, 9007199254740994, -9007199254740992,
+	9223372036854774784, 9223372036854775808, -9223372036854775808, -9223372036854777856, 18446744073709551616,
+	1e15, 1e20, 1e21, 1e22, 1.5e300, 1.7976931348623157e308, 5e-324, 2.2250738585072014e-308,
+}
+
 const baseDoc = `{
  "swagger":"2.0","info":{"title":"t","description":"d","version":"1.0","termsOfService":"tos"},
  "paths":{"/things":{"get":{"operationId":"listThings","summary":"s","description":"d",
@@ -73,7 +95,7 @@ const baseDoc = `{
            "count":{"type":"integer","format":"int64","example":9007199254740991},"ratio":{"type":"number","example":1e21},"tiny":{"type":"number","example":1.5e-9},
            "codes":{"type":"object","additionalProperties":{"type":"string"},"example":{"200":"ok","404":"nf","1e3":"x","true":"y","null":"z"}}}},
   "Zlast":{"allOf":[{"$ref":"#/definitions/Thing"}],"description":"last"}},
- "x-release-notes":"notes"
+ "x-release-notes":"notes", "x-rate":1.5
 }`
 
 const mixinDoc = `{"swagger":"2.0","info":{"title":"m","version":"1"},"paths":{"/other":{"get":{"operationId":"other","responses":{"204":{"description":"nc"}}}}},
@@ -310,6 +332,18 @@ func main() {
 			}
 			if setPath(doc, p, sc.text) {
 				marks = append(marks, strings.Join(p, "/")+"="+sc.class)
+			}
+		}
+		// numbers in numeric positions: one forced (every number once per run), up to two more at random
+		kn := 1 + r.Intn(3)
+		for j := 0; j < kn; j++ {
+			p := numPaths[r.Intn(len(numPaths))]
+			x := numbers[r.Intn(len(numbers))]
+			if j == 0 {
+				x = numbers[i%len(numbers)]
+			}
+			if setPath(doc, p, x) {
+				marks = append(marks, strings.Join(p, "/")+"=number:"+strconv.FormatFloat(x, 'g', -1, 64))
 			}
 		}
 		b, _ := json.Marshal(doc)
